@@ -7,7 +7,7 @@ least one table, and the reference expectations come from a fresh context-free b
 set.  Metamorphic monitors: positive scaling of the query changes nothing; a stored row (or a positive
 multiple) always finds itself; hyperplanes never change after fit.
 
-As built: Extras: refits in the middle of a history (new planes, tables must be rebuilt), positive multiples from 2^-500 to 2^560, Thompson / Softmax checked against a reference seeded with the row's own seed.
+As built: Extras: refits in the middle of a history (new planes, tables must be rebuilt), positive multiples from 2^-500 to 2^560, Thompson / Softmax checked against a reference seeded with the row's own seed; in a third of the histories the partial_fit batches arrive as float32 arrays and hold rows a hair (1e-8 relative) off a hyperplane, later queried in double precision.
 """
 from mon import env  # noqa: F401
 import math
@@ -24,7 +24,7 @@ RULE = ("LSHNearest(n_dimensions 1-6, n_tables 1-4) over EpsilonGreedy(0)/UCB1, 
         "over fit + 0-5 partial_fit, hashing with n_jobs 1-3 (threads); queries: stored rows, stored rows scaled by 2^k, zero "
         "vector, random; non-trivial = neighbourhood containing a partial_fit row, or empty, or scaled stored row; distinct = "
         "(lp, dims, tables, d, n_jobs, feature, stored rows, query index)")
-BUDGET = {"quick": {"cases": 240, "shards": 8}, "thorough": {"cases": 15000, "shards": 16, "wall_s": 2400}}
+BUDGET = {"quick": {"cases": 720, "shards": 16}, "thorough": {"cases": 30000, "shards": 16, "wall_s": 3600}}
 MIN = {"quick": {"evaluations": 1500, "nontrivial": 200}, "thorough": {"evaluations": 80000, "nontrivial": 8000}}
 ASSUMPTIONS = ["hyperplanes are taken from mab._imp.table_to_plane (trusted as the planes fixed at fit time; their constancy "
                "across partial_fit is itself monitored)", "dyadic rewards: the iteration order of the neighbour set cannot change sums",
@@ -104,12 +104,27 @@ def _run(rs, ctx):
     m = gen.build(cfg)
     rows_d, rows_r, rows_X = [], [], []
     wit = {"cfg": cfg, "chunks": chunks}
+    hair_mode = d >= 2 and rs.integers(3) == 0
     planes0 = None
     first_len = 0
     refit_at = int(rs.integers(1, len(chunks))) if len(chunks) > 2 and rs.integers(3) == 0 else -1
     wit["refit_at_chunk"] = refit_at
     for ci, c in enumerate(chunks):
         refit = ci == refit_at  # a second fit after the bandit has already answered queries: new planes, new tables
+        if hair_mode and ci > 0 and not refit and planes0 is not None:
+            # rows a hair off a hyperplane (the decision boundary of the hash): the projection onto the plane, rounded to
+            # single precision - its float64 projection is ~1e-8 of its terms, unambiguous in double precision, pure
+            # rounding noise in single precision; the batch arrives as a float32 array
+            for i in range(len(c["X"])):
+                if rs.integers(2):
+                    continue
+                p_ = planes0[int(gen.pick(rs, sorted(planes0)))][:, int(rs.integers(nd))]
+                base = rs.normal(0, 3, d)
+                x32 = (base - (base @ p_) / (p_ @ p_) * p_).astype(np.float32).astype(float)
+                if abs(x32 @ p_) > 1e-11 * float(np.sum(np.abs(x32 * p_))):
+                    c["X"][i] = [float(v) for v in x32]
+                    ctx.count("rows_a_hair_off_a_hyperplane")
+            c["x_enc"] = "f4"
         op = dict(c, op="fit" if (ci == 0 or refit) else "partial_fit")
         try:
             gen.apply_op(m, op)
